@@ -260,7 +260,14 @@ def f40():
     return True if not bad else f"(A@B)(u) != A(u)@B(u) at {bad}"
 
 
-for name, fn in (("F36", f36), ("F37", f37), ("F38", f38), ("F39", f39), ("F40", f40)):
+def f41():
+    """C05: knot_remove of a removable knot of a float curve of degree 0 raised UFuncTypeError before the repair"""
+    c = Curve([0.0, 0.5, 1.0], [1.0, 1.0])
+    c.knot_remove([0.5])
+    return True if tuple(c.knotvector) == (0.0, 1.0) else tuple(c.knotvector)
+
+
+for name, fn in (("F36", f36), ("F37", f37), ("F38", f38), ("F39", f39), ("F40", f40), ("F41", f41)):
     if len(sys.argv) > 1 and name not in sys.argv[1:]:
         continue
     t(name, fn)
